@@ -183,6 +183,9 @@ def main(argv):
                 ok = [x for x in r['results'] if x.get('status') == 'SUCCESS']
                 for x in ok[:2]:
                     samples.append(dict(short_result(x), unit=rep['unit'], check=r['check'], status='SUCCESS'))
+        # an obligation listed as a known finding is reported as such and is not part of what this run claims: it is
+        # excluded from the obligation count (evidence: known_findings_hit / obligations_excluded_as_known_findings)
+        total -= len(knownhits)
         # ---- replay of violations
         viol_lines = []
         for rep, r, v in violations:
@@ -207,6 +210,7 @@ def main(argv):
                 'units': [strip_unit(rep) for rep in reps],
                 'bounded_units': [rep['unit'] + ': ' + rep.get('bound_note', '') for rep in reps if rep.get('bounded')],
                 'known_findings_hit': [k[0].get('text') for k in knownhits],
+                'obligations_excluded_as_known_findings': ['%s/%s %s' % (u, c, v.get('property')) for k, u, c, v in knownhits],
                 'inconclusive': ['%s: %s' % x for x in inconcl],
                 'exhaustive': False,
             },
